@@ -104,9 +104,17 @@ def shard(shard_i, nshards, payload):
             if cons:
                 res.violation("not-conserved", "conservation:valid-unit", cons, {"files": [["a.st", vgen.render_unit(decls)]]})
             companions = []
+            # file names as real projects have them (case twins, blanks, non-ASCII): 4 for companions, 3 for parts,
+            # 3 for the special files; every second unit keeps the plain names
+            plain = i % 2 == 0
+            names = ["comp%d.st" % c for c in range(4)] + ["part%d.st" % c for c in range(3)] + ["bad.st", "twin.st", "o.st"] \
+                if plain else core.file_names(rng, 10)
+            comp_names, part_names, bad_name, twin_name, other_name = names[0:4], names[4:7], names[7], names[8], names[9]
+            res.count("names:" + ("plain" if plain else "hostile"))
+            osc = None if i % 3 == 0 else rng
             for c in range(4):
                 cd = vgen.VGen(core.rng_for(seed, "c03comp", i, c), prefix="C%d" % c, avoid=payload["avoid"]).unit(with_config=False)
-                companions.append(("comp%d.st" % c, vgen.render_unit(cd)))
+                companions.append((comp_names[c], vgen.render_unit(cd, oscat=osc)))
             # ---- (1) rule faults among companions
             faults = list(vgen.plant_all(decls))
             rng.shuffle(faults)
@@ -123,7 +131,7 @@ def shard(shard_i, nshards, payload):
                     k = rng.randint(0, 4)
                     comp = rng.sample(companions, k)
                     parts = split_files(mutant, rng, rng.randint(1, 3))
-                    files = [("part%d.st" % j, vgen.render_unit(p)) for j, p in enumerate(parts)] + comp
+                    files = [(part_names[j], vgen.render_unit(p, oscat=osc)) for j, p in enumerate(parts)] + comp
                     rng.shuffle(files)
                     r, obs = project_semantic(probe, files)
                     res.evaluations += 1
@@ -143,8 +151,8 @@ def shard(shard_i, nshards, payload):
             for name, text, want in (LEX_FAULT, SYN_FAULT):
                 for variant in range(payload["placements"]):
                     k = rng.randint(0, 4)
-                    files = [("a.st", vgen.render_unit(decls))] if variant % 2 == 0 else []
-                    files += rng.sample(companions, k) + [("bad_%s.st" % name, text)]
+                    files = [(part_names[0], vgen.render_unit(decls, oscat=osc))] if variant % 2 == 0 else []
+                    files += rng.sample(companions, k) + [(bad_name, text)]
                     rng.shuffle(files)
                     r, obs = project_semantic(probe, files)
                     res.evaluations += 1
@@ -208,11 +216,11 @@ def shard(shard_i, nshards, payload):
                             twin = {"k": "raw", "text": "FUNCTION_BLOCK %s VAR zz : INT; END_VAR zz := 1; END_FUNCTION_BLOCK" % d["name"]}
                     for place in ("same-file-after", "same-file-before", "other-file"):
                         if place == "same-file-after":
-                            files = [("a.st", vgen.render_unit(decls + [twin]))]
+                            files = [("a.st", vgen.render_unit(decls + [twin], oscat=osc))]
                         elif place == "same-file-before":
-                            files = [("a.st", vgen.render_unit([twin] + decls))]
+                            files = [("a.st", vgen.render_unit([twin] + decls, oscat=osc))]
                         else:
-                            files = [("a.st", vgen.render_unit(decls)), ("twin.st", vgen.render_unit([twin]))]
+                            files = [(part_names[0], vgen.render_unit(decls, oscat=osc)), (twin_name, vgen.render_unit([twin]))]
                             if rng.random() < 0.5:
                                 files.reverse()
                         r, obs = project_semantic(probe, files)
@@ -256,12 +264,13 @@ def cli_shard(shard_i, nshards, payload):
                 if not faults:
                     continue
                 f = rng.choice(faults)
-                bad = (f[0], vgen.render_unit(f[2]), {f[0]})
+                bad = (f[0], vgen.render_unit(f[2], oscat=rng if i % 3 else None), {f[0]})
             d = os.path.join(tmp, "set%d" % i)
             os.makedirs(d)
-            files = [("good.st", comp), ("bad.st", bad[1])]
+            fn = ["good.st", "bad.st", "unit.st"] if i % 2 == 0 else core.file_names(rng, 3)
+            files = [(fn[0], comp), (fn[1], bad[1])]
             if kind != 2:
-                files.append(("unit.st", vgen.render_unit(decls)))
+                files.append((fn[2], vgen.render_unit(decls, oscat=rng if i % 3 else None)))
             for n, t in files:
                 open(os.path.join(d, n), "w").write(t)
             paths = [os.path.join(d, n) for n, _ in files]
